@@ -152,6 +152,20 @@ def replay_batch_order(ids):
     return run
 
 
+def replay_autoid(cex):
+    with load.real_modules():
+        from acryo import BatchLoader, Molecules
+
+        bl = BatchLoader(order=0, scale=1.0, output_shape=(3, 3, 3))
+        for k in range(3):
+            bl.add_tomogram(np.full((10, 10, 10), float(k), dtype=np.float32), Molecules(np.full((2, 3), 5.0)))
+        t = bl.tail(4)  # drops tomogram 0
+        t.add_tomogram(np.full((10, 10, 10), 9.0, dtype=np.float32), Molecules(np.full((1, 3), 5.0)))
+        sub = t.construct_dask().compute()
+        got = [float(s.mean()) for s in sub]
+        return got != [1.0, 1.0, 2.0, 2.0, 9.0], {"mean_of_each_loaded_subtomogram": got, "want": [1.0, 1.0, 2.0, 2.0, 9.0]}
+
+
 def replay_group_twice(op):
     def run(cex):
         with load.real_modules():
@@ -336,13 +350,28 @@ def sec_batch_ops(rec, patches=None):
             bl.add_tomogram(stubs.ImgStub((200,) * 3, root="tomoC"), _molecules(MC, ["c0", "c1"], {"v": [4, 5]}), image_id=7)
             f = bl.filter(pl.col("v") > 2)
             h = bl.head(2)
-            return bl, f, h
+            # history: a derived loader that lost its first tomogram gets a new tomogram without an explicit id
+            bh = BT.BatchLoader(order=1, scale=1, output_shape=SHAPE)
+            bh.add_tomogram(stubs.ImgStub((200,) * 3, root="tomoA"), _molecules(MC, ["a0", "a1"], {"v": [1, 2]}))
+            bh.add_tomogram(stubs.ImgStub((200,) * 3, root="tomoB"), _molecules(MC, ["b0"], {"v": [3]}))
+            bh.add_tomogram(stubs.ImgStub((200,) * 3, root="tomoC"), _molecules(MC, ["c0", "c1"], {"v": [4, 5]}))
+            t = bh.tail(3)
+            ids_before = list(t.images)
+            t.add_tomogram(stubs.ImgStub((200,) * 3, root="tomoD"), _molecules(MC, ["d0"], {"v": [9]}))
+            hist = (ids_before, {k: im.root for k, im in t.images.items()}, t.molecules.features["row"].to_list(), t.molecules.features["image-id"].to_list())
+            return bl, f, h, hist
 
         for pth in explore(run, max_paths=10):
             if not pth.ok:
                 rec.fact("batch-ops/runs", False, key="C03/batch/raises", detail={"exc": repr(pth.exc)[:300]})
                 continue
-            bl, f, h = pth.result
+            bl, f, h, hist = pth.result
+            ids_before, roots_after, rows_after, ids_after = hist
+            img_of = dict(zip(rows_after, [roots_after[i] for i in ids_after]))
+            ok_hist = img_of == {"b0": "tomoB", "c0": "tomoC", "c1": "tomoC", "d0": "tomoD"} and len(roots_after) == 3
+            okr, det = (True, {}) if ok_hist else replay_autoid({})
+            rec.fact("batch-ops/history: tail(3) then add_tomogram() keeps every molecule on its own tomogram", ok_hist, key="C03/batch/auto-id-collision",
+                     detail={"image_of_molecule": img_of, "ids_before": list(map(str, ids_before)), **det}, reproduced=okr)
             rec.fact("batch-ops/auto-image-ids", bl.molecules.features["image-id"].to_list() in ([0, 0, 1, 7, 7],), key="C03/batch/image-ids",
                      detail={"ids": list(map(str, bl.molecules.features["image-id"].to_list()))})
             rec.fact("batch-ops/filter", f.molecules.features["row"].to_list() == ["b0", "c0", "c1"] and sorted(f.images) == [1, 7], key="C03/batch/derived",
